@@ -13,6 +13,13 @@ Queries (one protocol line each, the real output is part of the `sym`/`lcssym` l
   sym    find_isomorphisms(symmetry=True)         oneRepPerClass out (allIsos) = true
   lcs    largest_common_subgraph(symmetry=False)  == allMCIS
   lcssym largest_common_subgraph(symmetry=True)   coversUpToAut out (allMCIS) = true
+  subiso subgraph_is_isomorphic                   == (allIsos != [])
+  isiso  is_isomorphic                            == (same number of nodes and allIsos != [])
+
+Besides single calls on fresh matchers there are HISTORIES (the property is about every call):
+several calls in random order on one matcher object, and matchers for several pairs that share
+one symmetry `cache` dict (as repair_graph shares it across residues); every answer in a history
+is compared with the reference exactly as if it had been computed alone.
 """
 import itertools
 from common import *
@@ -46,7 +53,7 @@ if not SYMMETRY_CODE_IS_THE_KNOWN_ONE:
                      '(fingerprint %s): cases with the F-C06-1 signature are reported as violations' % _fp)
 chk.extra['rule'] = ('graph pairs: exhaustive small graphs (graph atlas, random keys), symmetric patterns of 5-10 '
                      'nodes (paths, cycles, stars, spiders, trees+chord, complete bipartite) inside noisy targets, '
-                     'random sparse pairs for the common-subgraph search, corpus; node keys non-contiguous, 1-3 '
+                     'random sparse pairs for the common-subgraph search, corpus; call histories (2-5 calls on one matcher object; 2-4 matchers sharing one symmetry cache with patterns of equal keys/edges/label-class sizes); node keys non-contiguous, 1-3 '
                      'node colours, 1-2 edge colours. A case is non-trivial if the pattern has >= 3 nodes and '
                      '(>= 1 isomorphism / common subgraph of >= 2 nodes was found or |Aut(pattern)| > 1); '
                      'distinct = distinct protocol line')
@@ -201,147 +208,274 @@ def add(cid, ln, impl, errs, nontriv, finding=None):
     pending.append((cid, ln, impl, errs, nontriv, finding))
 
 
+class Pair:
+    """one (graph, pattern) pair with its reference data (computed once, independently of any matcher)"""
+
+    def __init__(self, g, sg, explicit=False):
+        self.g, self.sg, self.explicit = g, sg, explicit
+        self.order = pattern_order(sg)
+        self.sn, self.se = enc_graph(sg, self.order)
+        self.gn, self.ge = enc_graph(g, sorted(g.nodes))
+        self.auts = brute(sg, sg, self.order, limit=MAX_AUT)
+        self.ok = len(self.auts) <= MAX_AUT
+        idx = {p: i for i, p in enumerate(self.order)}
+        self.auts_idx = [tuple(idx[x] for x in a) for a in self.auts]
+        self.auts_maps = [dict(zip(self.order, a)) for a in self.auts]
+        self.naut = len(self.auts)
+        self._full = self._mcis = None
+
+    def full(self):
+        if self._full is None:
+            self._full = brute(self.g, self.sg, self.order, limit=MAX_FULL)
+        return self._full if len(self._full) <= MAX_FULL else None
+
+    def mcis(self):
+        if self._mcis is None:
+            self._mcis = brute_mcis(self.g, self.sg, self.order)
+        return self._mcis
+
+    def matcher(self, cache=None):
+        g, sg = self.g, self.sg
+        ncols = {ncol(g, n) for n in g} | {ncol(sg, n) for n in sg}
+        ecols = {d.get('c', 0) for _, _, d in g.edges(data=True)} | {d.get('c', 0) for _, _, d in sg.edges(data=True)}
+        node_match = nm if (len(ncols) > 1 or self.explicit) else None
+        edge_match = nm if (len(ecols) > 1 or self.explicit) else None
+        if cache is None:
+            return ISMAGS(g, sg, node_match=node_match, edge_match=edge_match)
+        return ISMAGS(g, sg, node_match=node_match, edge_match=edge_match, cache=cache)
+
+    def describe(self):
+        return 'pattern nodes %s edges %s in graph nodes %s edges %s' % (self.sn, self.se, self.gn, self.ge)
+
+
+def call_iso(cid, P, ism, symmetry, alias=False, ctx=''):
+    """find_isomorphisms / subgraph_isomorphisms_iter on the matcher `ism` of the pair `P`"""
+    g, sg, order, naut = P.g, P.sg, P.order, P.naut
+    full = P.full()
+    if full is None:
+        chk.count('skipped_full_cap')
+        return
+    fullset = set(full)
+    nontriv = len(sg) >= 3 and (len(full) >= 1 or naut > 1)
+    errs = []
+    try:
+        it = ism.subgraph_isomorphisms_iter(symmetry=symmetry) if alias else ism.find_isomorphisms(symmetry=symmetry)
+        raw = list(it)
+    except Exception as e:  # noqa
+        raw = []
+        errs.append('exception %s: %s' % (type(e).__name__, e))
+    out = []
+    for d in raw:
+        inv = {s: t for t, s in d.items()}
+        if set(inv) != set(order) or len(inv) != len(d):
+            errs.append('yielded mapping does not cover the pattern exactly: %r' % (d,))
+            continue
+        why = is_common(g, sg, inv)
+        if why:
+            errs.append('yielded mapping is not an induced subgraph isomorphism (%s): %r' % (why, d))
+        out.append(tuple(inv[p] for p in order))
+    finding = None
+    if not symmetry:
+        if len(set(out)) != len(out):
+            errs.append('symmetry=False yields an isomorphism more than once')
+        miss = fullset - set(out)
+        if miss:
+            errs.append('symmetry=False misses %d of %d isomorphisms, e.g. %r along %r'
+                        % (len(miss), len(full), sorted(miss)[0], order))
+        extra = set(out) - fullset
+        if extra and not errs:
+            errs.append('symmetry=False yields %d mappings outside the brute-force answer' % len(extra))
+        impl = enc([list(m) for m in sorted(out)])
+        add('%s-iso' % cid, line('iso', P.gn, P.ge, P.sn, P.se), impl, [ctx + e for e in errs], nontriv)
+    else:
+        classes = {}
+        for m in full:
+            classes.setdefault(canon_rep(order, P.auts_idx, m), 0)
+        hits = dict.fromkeys(classes, 0)
+        outside = 0
+        for m in out:
+            r = canon_rep(order, P.auts_idx, m)
+            if m in fullset:
+                hits[r] += 1
+            else:
+                outside += 1
+        missing = [r for r, c in hits.items() if c == 0]
+        multi = [r for r, c in hits.items() if c > 1]
+        if outside and not errs:
+            errs.append('symmetry=True yields %d mappings outside the full answer' % outside)
+        if missing:
+            errs.append('symmetry=True loses %d of %d symmetry classes, e.g. the class of %r along %r'
+                        % (len(missing), len(classes), missing[0], order))
+        if multi:
+            errs.append('symmetry=True yields %d members of one symmetry class (|Aut|=%d, %d classes, %d yielded)'
+                        % (hits[multi[0]], naut, len(classes), len(out)))
+        # signature of the known finding F-C06-1 (DESIGN appendix A)
+        if multi and not missing and not outside and len(errs) == 1:
+            try:
+                prod = coset_product(P.matcher(), sg)
+            except Exception:  # noqa
+                prod = None
+            if prod is not None and prod < naut:
+                chk.count('F-C06-1_signature')
+                if SYMMETRY_CODE_IS_THE_KNOWN_ONE:
+                    finding = 'F-C06-1'
+                else:
+                    # the automorphism search was edited since the finding was recorded: its
+                    # failures are not the listed finding any more, report them
+                    chk.count('F-C06-1_signature_but_symmetry_code_changed')
+        chk.count('classes=%s' % (0 if not classes else 1 if len(classes) == 1 else '2-5' if len(classes) <= 5 else '>5'))
+        impl = 'classes=%d ok' % len(out)
+        add('%s-sym' % cid, line('sym', P.gn, P.ge, P.sn, P.se, [list(m) for m in out]), impl,
+            [ctx + e for e in errs], nontriv, finding)
+
+
+def call_lcs(cid, P, ism, symmetry, ctx=''):
+    """largest_common_subgraph on the matcher `ism` of the pair `P`"""
+    g, sg, order, naut = P.g, P.sg, P.order, P.naut
+    k, best = P.mcis()
+    nontriv = len(sg) >= 3 and (k >= 2 or naut > 1)
+    pos = {p: i for i, p in enumerate(order)}
+    errs = []
+    try:
+        raw = list(ism.largest_common_subgraph(symmetry=symmetry))
+    except Exception as e:  # noqa
+        raw = []
+        errs.append('exception %s: %s' % (type(e).__name__, e))
+    out = []
+    for d in raw:
+        inv = {s: t for t, s in d.items()}
+        why = is_common(g, sg, inv) if len(inv) == len(d) else 'two graph nodes for one pattern node'
+        if why:
+            errs.append('yielded mapping is not a common induced subgraph (%s): %r' % (why, d))
+        out.append(tuple(sorted(inv.items(), key=lambda x: pos.get(x[0], -1))))
+    if not out:
+        # nothing in common is reported as "no result"; the reference reports the empty map
+        chk.count('lcs_no_result')
+        out = [()]
+    if len(set(out)) != len(out):
+        chk.count('lcs_duplicate_results')
+    sizes = {len(m) for m in out}
+    if sizes != {k}:
+        errs.append('largest_common_subgraph(symmetry=%s) yields sizes %s, the maximum is %d' % (symmetry, sorted(sizes), k))
+    else:
+        reps = {partial_canon(order, P.auts_maps, m) for m in out}
+        outset = set(out)
+        lost = [m for m in best if m not in outset and partial_canon(order, P.auts_maps, m) not in reps]
+        if lost:
+            errs.append('largest_common_subgraph(symmetry=%s): %d maximum common subgraphs are neither yielded '
+                        'nor symmetry-equivalent to a yielded one, e.g. %r' % (symmetry, len(lost), lost[0]))
+    errs = [ctx + e for e in errs]
+    if not symmetry:
+        # canonical order = sorted by flattened (p, t) pairs, as the driver does
+        uniq2 = sorted(set(out), key=lambda m: [x for pt in m for x in pt])
+        impl = '%d %s' % (max(sizes), enc([[list(pt) for pt in m] for m in uniq2]))
+        add('%s-lcs' % cid, line('lcs', P.gn, P.ge, P.sn, P.se), impl, errs, nontriv)
+    else:
+        uniq = sorted(set(out), key=lambda m: [x for p, t in m for x in (pos.get(p, -1), t)])
+        impl = 'size=%d ok' % max(sizes)
+        add('%s-lcssym' % cid, line('lcssym', P.gn, P.ge, P.sn, P.se, [[list(pt) for pt in m] for m in uniq]),
+            impl, errs, nontriv)
+
+
+def call_bool(cid, P, ism, which, symmetry, ctx=''):
+    """is_isomorphic / subgraph_is_isomorphic on the matcher `ism` of the pair `P`"""
+    full = P.full()
+    if full is None:
+        chk.count('skipped_full_cap')
+        return
+    errs = []
+    try:
+        got = bool(getattr(ism, which)(symmetry=symmetry))
+    except Exception as e:  # noqa
+        got = None
+        errs.append('exception %s: %s' % (type(e).__name__, e))
+    want = bool(full) and (which == 'subgraph_is_isomorphic' or len(P.g) == len(P.sg))
+    if got is not None and got != want:
+        errs.append('%s(symmetry=%s) returns %s although %d induced subgraph isomorphisms exist (|graph|=%d, |pattern|=%d)'
+                    % (which, symmetry, got, len(full), len(P.g), len(P.sg)))
+    op = 'isiso' if which == 'is_isomorphic' else 'subiso'
+    add('%s-%s' % (cid, op), line(op, P.gn, P.ge, P.sn, P.se), enc(got), [ctx + e for e in errs],
+        len(P.sg) >= 3 and (bool(full) or P.naut > 1))
+
+
 def run_pair(cid, g, sg, do_iso=True, do_lcs=False, explicit=False, alias=False):
-    """all requested queries for one pair of graphs"""
-    order = pattern_order(sg)
-    gorder = sorted(g.nodes)
-    sn, se = enc_graph(sg, order)
-    gn, ge = enc_graph(g, gorder)
-    auts = brute(sg, sg, order, limit=MAX_AUT)
-    if len(auts) > MAX_AUT:
+    """all requested queries for one pair of graphs, each on a fresh matcher"""
+    P = Pair(g, sg, explicit)
+    if not P.ok:
         chk.count('skipped_aut_cap')
         return
-    idx = {p: i for i, p in enumerate(order)}
-    auts_idx = [tuple(idx[x] for x in a) for a in auts]
-    auts_maps = [dict(zip(order, a)) for a in auts]
-    naut = len(auts)
+    naut = P.naut
     chk.count('aut=%s' % (naut if naut <= 2 else '3-6' if naut <= 6 else '7-24' if naut <= 24 else '>24'))
     chk.count('pattern_nodes=%d' % len(sg))
     if do_iso:
-        full = brute(g, sg, order, limit=MAX_FULL)
-        if len(full) > MAX_FULL:
+        full = P.full()
+        if full is None:
             chk.count('skipped_full_cap')
             return
-        fullset = set(full)
-        nontriv = len(sg) >= 3 and (len(full) >= 1 or naut > 1)
         chk.count('isos=%s' % (0 if not full else 1 if len(full) == 1 else '2-20' if len(full) <= 20 else '>20'))
         for symmetry in (False, True):
-            ism = make_ismags(g, sg, explicit)
-            errs = []
-            try:
-                it = ism.subgraph_isomorphisms_iter(symmetry=symmetry) if alias else ism.find_isomorphisms(symmetry=symmetry)
-                raw = list(it)
-            except Exception as e:  # noqa
-                raw = []
-                errs.append('exception %s: %s' % (type(e).__name__, e))
-            out = []
-            for d in raw:
-                inv = {s: t for t, s in d.items()}
-                if set(inv) != set(order) or len(inv) != len(d):
-                    errs.append('yielded mapping does not cover the pattern exactly: %r' % (d,))
-                    continue
-                why = is_common(g, sg, inv)
-                if why:
-                    errs.append('yielded mapping is not an induced subgraph isomorphism (%s): %r' % (why, d))
-                out.append(tuple(inv[p] for p in order))
-            finding = None
-            if not symmetry:
-                if len(set(out)) != len(out):
-                    errs.append('symmetry=False yields an isomorphism more than once')
-                miss = fullset - set(out)
-                if miss:
-                    errs.append('symmetry=False misses %d of %d isomorphisms, e.g. %r along %r'
-                                % (len(miss), len(full), sorted(miss)[0], order))
-                extra = set(out) - fullset
-                if extra and not errs:
-                    errs.append('symmetry=False yields %d mappings outside the brute-force answer' % len(extra))
-                impl = enc([list(m) for m in sorted(out)])
-                add('%s-iso' % cid, line('iso', gn, ge, sn, se), impl, errs, nontriv)
-            else:
-                classes = {}
-                for m in full:
-                    classes.setdefault(canon_rep(order, auts_idx, m), 0)
-                hits = dict.fromkeys(classes, 0)
-                outside = 0
-                for m in out:
-                    r = canon_rep(order, auts_idx, m)
-                    if m in fullset:
-                        hits[r] += 1
-                    else:
-                        outside += 1
-                missing = [r for r, c in hits.items() if c == 0]
-                multi = [r for r, c in hits.items() if c > 1]
-                if outside and not errs:
-                    errs.append('symmetry=True yields %d mappings outside the full answer' % outside)
-                if missing:
-                    errs.append('symmetry=True loses %d of %d symmetry classes, e.g. the class of %r along %r'
-                                % (len(missing), len(classes), missing[0], order))
-                if multi:
-                    errs.append('symmetry=True yields %d members of one symmetry class (|Aut|=%d, %d classes, %d yielded)'
-                                % (hits[multi[0]], naut, len(classes), len(out)))
-                # signature of the known finding F-C06-1 (DESIGN appendix A)
-                if multi and not missing and not outside and len(errs) == 1:
-                    try:
-                        prod = coset_product(make_ismags(g, sg, explicit), sg)
-                    except Exception:  # noqa
-                        prod = None
-                    if prod is not None and prod < naut:
-                        chk.count('F-C06-1_signature')
-                        if SYMMETRY_CODE_IS_THE_KNOWN_ONE:
-                            finding = 'F-C06-1'
-                        else:
-                            # the automorphism search was edited since the finding was recorded: its
-                            # failures are not the listed finding any more, report them
-                            chk.count('F-C06-1_signature_but_symmetry_code_changed')
-                chk.count('classes=%s' % (0 if not classes else 1 if len(classes) == 1 else '2-5' if len(classes) <= 5 else '>5'))
-                impl = 'classes=%d ok' % len(out)
-                add('%s-sym' % cid, line('sym', gn, ge, sn, se, [list(m) for m in out]), impl, errs, nontriv, finding)
+            call_iso(cid, P, P.matcher(), symmetry, alias)
     if do_lcs:
-        k, best = brute_mcis(g, sg, order)
-        bestset = set(best)
-        nontriv = len(sg) >= 3 and (k >= 2 or naut > 1)
+        k = P.mcis()[0]
         chk.count('lcs_size_vs_pattern=%s' % ('equal' if k == len(sg) else 'minus1' if k == len(sg) - 1 else 'smaller'))
-        pos = {p: i for i, p in enumerate(order)}
         for symmetry in (False, True):
-            ism = make_ismags(g, sg, explicit)
-            errs = []
-            try:
-                raw = list(ism.largest_common_subgraph(symmetry=symmetry))
-            except Exception as e:  # noqa
-                raw = []
-                errs.append('exception %s: %s' % (type(e).__name__, e))
-            out = []
-            for d in raw:
-                inv = {s: t for t, s in d.items()}
-                why = is_common(g, sg, inv) if len(inv) == len(d) else 'two graph nodes for one pattern node'
-                if why:
-                    errs.append('yielded mapping is not a common induced subgraph (%s): %r' % (why, d))
-                out.append(tuple(sorted(inv.items(), key=lambda x: pos.get(x[0], -1))))
-            if not out:
-                # nothing in common is reported as "no result"; the reference reports the empty map
-                chk.count('lcs_no_result')
-                out = [()]
-            if len(set(out)) != len(out):
-                chk.count('lcs_duplicate_results')
-            sizes = {len(m) for m in out}
-            if sizes != {k}:
-                errs.append('largest_common_subgraph(symmetry=%s) yields sizes %s, the maximum is %d' % (symmetry, sorted(sizes), k))
-            else:
-                reps = {partial_canon(order, auts_maps, m) for m in out}
-                lost = [m for m in best if m not in set(out) and partial_canon(order, auts_maps, m) not in reps]
-                if lost:
-                    errs.append('largest_common_subgraph(symmetry=%s): %d maximum common subgraphs are neither yielded '
-                                'nor symmetry-equivalent to a yielded one, e.g. %r' % (symmetry, len(lost), lost[0]))
-            uniq = sorted(set(out), key=lambda m: [x for p, t in m for x in (pos.get(p, -1), t)])
-            if not symmetry:
-                # canonical order = sorted by flattened (p, t) pairs, as the driver does
-                uniq2 = sorted(set(out), key=lambda m: [x for pt in m for x in pt])
-                impl = '%d %s' % (max(sizes), enc([[list(pt) for pt in m] for m in uniq2]))
-                add('%s-lcs' % cid, line('lcs', gn, ge, sn, se), impl, errs, nontriv)
-            else:
-                impl = 'size=%d ok' % max(sizes)
-                add('%s-lcssym' % cid, line('lcssym', gn, ge, sn, se, [[list(pt) for pt in m] for m in uniq]),
-                    impl, errs, nontriv)
+            call_lcs(cid, P, P.matcher(), symmetry)
+
+
+CALLS = [('find_isomorphisms', False), ('find_isomorphisms', True), ('subgraph_isomorphisms_iter', False),
+         ('subgraph_isomorphisms_iter', True), ('largest_common_subgraph', False), ('largest_common_subgraph', True),
+         ('is_isomorphic', False), ('is_isomorphic', True), ('subgraph_is_isomorphic', False),
+         ('subgraph_is_isomorphic', True)]
+
+
+def do_call(cid, P, ism, name, symmetry, ctx):
+    chk.count('history_call_' + name)
+    if name == 'find_isomorphisms':
+        call_iso(cid, P, ism, symmetry, False, ctx)
+    elif name == 'subgraph_isomorphisms_iter':
+        call_iso(cid, P, ism, symmetry, True, ctx)
+    elif name == 'largest_common_subgraph':
+        call_lcs(cid, P, ism, symmetry, ctx)
+    else:
+        call_bool(cid, P, ism, name, symmetry, ctx)
+
+
+def run_object_history(cid, g, sg, calls, explicit=False):
+    """several calls on ONE matcher object; every answer must be right as if computed alone"""
+    P = Pair(g, sg, explicit)
+    if not P.ok or P.full() is None:
+        chk.count('skipped_aut_cap')
+        return
+    ism = P.matcher()
+    done = []
+    for j, (name, symmetry) in enumerate(calls):
+        ctx = ''
+        if done:
+            ctx = 'call %d on ONE matcher object, after %s: ' % (j + 1, ', '.join('%s(symmetry=%s)' % c for c in done))
+        do_call('%s-c%d' % (cid, j), P, ism, name, symmetry, ctx)
+        done.append((name, symmetry))
+    chk.count('object_history_len=%d' % len(calls))
+
+
+def run_cache_history(cid, pairs, rng):
+    """matchers for several (graph, pattern) pairs SHARING one symmetry cache (as repair_graph does across
+    residues); every answer must be right as if computed alone"""
+    cache = {}
+    earlier = []
+    for j, (g, sg, explicit) in enumerate(pairs):
+        P = Pair(g, sg, explicit)
+        if not P.ok or P.full() is None:
+            chk.count('skipped_aut_cap')
+            continue
+        ctx = ''
+        if earlier:
+            ctx = 'matcher %d sharing one symmetry cache with earlier matchers for [%s]: ' % (j + 1, ' | '.join(earlier))
+        for name in rng.choice([['find_isomorphisms'], ['find_isomorphisms', 'largest_common_subgraph'],
+                                ['largest_common_subgraph', 'find_isomorphisms'], ['subgraph_isomorphisms_iter']]):
+            do_call('%s-m%d' % (cid, j), P, P.matcher(cache), name, True, ctx)
+        earlier.append(P.describe())
+    chk.count('cache_history_len=%d' % len(pairs))
+    chk.count('cache_entries=%d' % min(len(cache), 4))
 
 
 # ----------------------------------------------------------------------------
@@ -591,6 +725,131 @@ for i in range(N):
     g = relabel(g, rng)
     sg = relabel(sg, rng)
     run_pair('lcs-%d' % i, g, sg, do_iso=False, do_lcs=True, explicit=(i % 4 == 0))
+
+# ---- histories: the property is about EVERY call, whatever was called before ---------------------
+def small_shape(rng):
+    kind = rng.choice(['path', 'path', 'cycle', 'star', 'spider', 'tree', 'treechord'])
+    if kind == 'path':
+        G = nx.path_graph(rng.randint(3, 7))
+    elif kind == 'cycle':
+        G = nx.cycle_graph(rng.randint(4, 7))
+    elif kind == 'star':
+        G = nx.star_graph(rng.randint(3, 4))
+    elif kind == 'spider':
+        G = spider(*rng.choice([(3, 1), (3, 2), (2, 2), (2, 3), (4, 1)]))
+    else:
+        G = nx.random_labeled_tree(rng.randint(4, 7), seed=rng.randrange(10 ** 9))
+        if kind == 'treechord':
+            G.add_edge(*rng.sample(list(G.nodes), 2))
+    chk.count('history_shape_' + kind)
+    return nx.Graph(G)
+
+
+def target_for(sg, rng):
+    """a target containing the (coloured) pattern most of the time; keys of the TARGET are renumbered"""
+    g = noisy_target(sg, rng)
+    for n in g.nodes:
+        if 'c' not in g.nodes[n]:
+            g.nodes[n]['c'] = rng.randrange(2)
+    for u, v in g.edges:
+        if 'c' not in g.edges[u, v]:
+            g.edges[u, v]['c'] = 0
+    return relabel(g, rng)
+
+
+def corpus_histories():
+    """path 0-1-2-3 labelled ABBA then AABB and the reverse (same keys, edges and label-class sizes)"""
+    def lp(cols):
+        G = nx.path_graph(len(cols))
+        for n, c in enumerate(cols):
+            G.nodes[n]['c'] = c
+        return G
+    for name, seq in (('abba-aabb', ([0, 1, 1, 0], [0, 0, 1, 1])), ('aabb-abba', ([0, 0, 1, 1], [0, 1, 1, 0])),
+                      ('abab-abba-baab', ([0, 1, 0, 1], [0, 1, 1, 0], [1, 0, 0, 1]))):
+        yield 'corpus-cache-' + name, [(lp(c), lp(c), True) for c in seq]
+
+
+class _FixedChoice:
+    def __init__(self, value):
+        self.value = value
+
+    def choice(self, _):
+        return self.value
+
+
+for cid, pairs in corpus_histories():
+    run_cache_history(cid, pairs, _FixedChoice(['find_isomorphisms']))
+    run_cache_history(cid + '-lcs', pairs, _FixedChoice(['largest_common_subgraph', 'find_isomorphisms']))
+sp = spider(3, 2)
+run_object_history('corpus-object-iso-then-lcs', nx.path_graph(4), nx.star_graph(3),
+                   [('find_isomorphisms', True), ('largest_common_subgraph', True), ('largest_common_subgraph', False)])
+run_object_history('corpus-object-lcs-then-iso', sp.copy(), sp.copy(),
+                   [('largest_common_subgraph', True), ('find_isomorphisms', False), ('find_isomorphisms', True),
+                    ('is_isomorphic', False)])
+
+rng = chk.rng('cache-history')
+N = 3000 if chk.thorough else 350
+for i in range(N):
+    base = small_shape(rng)
+    nodes = list(base.nodes)
+    ncl = rng.choice([2, 2, 3])
+    cols = [rng.randrange(ncl) for _ in nodes]
+    ecols = [rng.randrange(2) if rng.random() < 0.2 else 0 for _ in base.edges]
+    pairs = []
+    for j in range(rng.randint(2, 4)):
+        sg = nx.Graph()
+        k = rng.random()
+        order = list(nodes)
+        mycols, myecols = list(cols), list(ecols)
+        if j > 0:
+            if k < 0.55:
+                rng.shuffle(mycols)                      # same label-class sizes, other arrangement
+                chk.count('variant_labels_permuted')
+            elif k < 0.7:
+                rng.shuffle(myecols)                     # same edge-colour multiset, other arrangement
+                chk.count('variant_edge_colours_permuted')
+            elif k < 0.8:
+                rng.shuffle(order)                       # other insertion order of the same nodes
+                chk.count('variant_node_order')
+            elif k < 0.9:
+                mycols = [rng.randrange(ncl) for _ in nodes]
+                chk.count('variant_labels_redrawn')
+            else:
+                chk.count('variant_identical')
+        cmap = dict(zip(nodes, mycols))
+        for n in order:
+            sg.add_node(n, c=cmap[n])
+        for (u, v), c in zip(base.edges, myecols):
+            sg.add_edge(u, v, c=c)
+        g = target_for(sg, rng) if rng.random() < 0.7 else sg.copy()
+        pairs.append((g, sg, True))
+    run_cache_history('cache-%d' % i, pairs, rng)
+
+rng = chk.rng('object-history')
+N = 3000 if chk.thorough else 350
+for i in range(N):
+    sg = small_shape(rng)
+    if rng.random() < 0.4:
+        colour_nodes(sg, rng, 2)
+    r = rng.random()
+    if r < 0.35:
+        g = sg.copy()                                    # same size: is_isomorphic can be true
+        if rng.random() < 0.3 and g.number_of_edges():
+            g.remove_edge(*rng.choice(list(g.edges)))
+    elif r < 0.75:
+        g = noisy_target(sg, rng)
+        for n in g.nodes:
+            g.nodes[n].setdefault('c', rng.randrange(2))
+    else:
+        g = sg.copy()                                    # damaged: the pattern does not fit any more
+        g.remove_node(rng.choice(list(g.nodes)))
+        g.add_edge(200, rng.choice(list(g.nodes)))
+        g.nodes[200]['c'] = 0
+    g = relabel(g, rng)
+    if rng.random() < 0.5:
+        sg = relabel(sg, rng)
+    calls = [rng.choice(CALLS) for _ in range(rng.randint(2, 5))]
+    run_object_history('object-%d' % i, g, sg, calls, explicit=(i % 3 == 0))
 
 # ---- model side ------------------------------------------------------------------
 models = chk.drv.ask(lines) if chk.lean_ok else [None] * len(lines)
